@@ -191,6 +191,49 @@ def beancount_wildcards():
     return n, bad
 
 
+def structured_and_placeholder_names(rng):
+    """Un-aliased targets whose top node is an attribute access, a subscript or a placeholder are expressions: they are
+    named by their exact source text (only bare columns are named by the column name). On a Beancount connection."""
+    src = '2020-01-01 open Assets:Cash\n2020-01-02 * "p" "n"\n  k: "v"\n  Assets:Cash  1 USD\n    k: "w"\n  Assets:Cash  -1 USD\n'
+    with tempfile.NamedTemporaryFile('w', suffix='.beancount', delete=False) as f:
+        f.write(src)
+        path = f.name
+    bad, n = [], 0
+    try:
+        conn = impl.beanquery.connect('beancount:' + path)
+        exprs = ['entry.flag', 'entry.date', 'position.units.currency', 'position.units', 'entry.meta', "meta['k']", "entry.meta['k']",
+                 'entry  .  narration', 'weight.number', 'date', 'entry']
+        for e in exprs:
+            for text in (e, spaced(rng, e), f'( {e} )'):
+                n += 1
+                try:
+                    cur = conn.execute(f'SELECT {text} FROM #postings')
+                    got = cur.description[0].name
+                    want = e if e in ('date', 'entry') else text.strip('() ').strip()
+                    if got != want:
+                        bad.append((f'SELECT {text} FROM #postings', got, want))
+                except Exception as ex:  # noqa: BLE001
+                    bad.append((f'SELECT {text} FROM #postings', repr(ex), e))
+        for text, params, want in (('%(bound)s', {'bound': 1}, '%(bound)s'), ('%s', [1], '%s'), ('%(a)s, %(b)s', {'a': 1, 'b': 2}, None),
+                                   ('%s + %s', [1, 2], '%s + %s')):
+            n += 1
+            try:
+                cur = conn.execute(f'SELECT {text} FROM #postings', params)
+                got = [d.name for d in cur.description]
+                exp = [want] if want else ['%(a)s', '%(b)s']
+                if got != exp or any(len(r) != len(exp) for r in cur.fetchall()):
+                    bad.append((f'SELECT {text} FROM #postings {params}', got, exp))
+            except Exception as ex:  # noqa: BLE001
+                bad.append((f'SELECT {text} FROM #postings {params}', repr(ex), want))
+        n += 1
+        cur = conn.execute('SELECT * FROM (SELECT date, entry.date FROM #postings)')
+        if [d.name for d in cur.description] != ['date', 'entry.date']:
+            bad.append(('SELECT * FROM (SELECT date, entry.date FROM #postings)', [d.name for d in cur.description], ['date', 'entry.date']))
+    finally:
+        os.unlink(path)
+    return n, bad
+
+
 def parsed_wildcard_reuse():
     """`*` expands to the CURRENT table's columns every time a parsed statement is executed (the expansion must not be
     frozen into the parsed statement), at top level and inside a FROM subquery."""
@@ -266,12 +309,16 @@ def run(tier, rng):
     for what, got, want in parsed_wildcard_reuse():
         violations.append(core.Violation('wildcard-reuse', f'{what}: description {got}, expected {want}',
                                          {'what': what, 'got': got, 'want': want}, signature='wildcard-reuse:' + what))
+    ns, sbad = structured_and_placeholder_names(rng)
+    for sql, got, want in sbad[:2]:
+        violations.append(core.Violation('naming', f'{sql}: column named {got!r}, expected the source text {want!r}',
+                                         {'sql': sql, 'got': got, 'want': want}, signature='naming:' + sql))
     nb, wbad = beancount_wildcards()
     for name, got, want in wbad[:2]:
         violations.append(core.Violation('wildcard', f'SELECT * FROM #{name}: {got} but the table declares {want}',
                                          {'table': name, 'got': got, 'want': want}, signature='wildcard:' + name))
     cov = {
-        'evaluations': len(cases) + nb, 'distinct_nontrivial': nontrivial,
+        'evaluations': len(cases) + nb + ns, 'structured_and_placeholder_targets': ns, 'distinct_nontrivial': nontrivial,
         'rule': 'random SELECT lists of 1-4 targets (aliased / bare column / expression of depth<=3) written with random white space, '
                 'comments, redundant parentheses, unary +, upper-case identifiers; hidden ORDER BY / GROUP BY / HAVING helpers; '
                 'optionally wrapped as SELECT * FROM (...); every Beancount table with * and with all columns; '
